@@ -58,7 +58,20 @@ def neighbour_pair_decides(F, n):
 def check_pipeline(case, rec):
     x = gen.render_signal(case['sig'])
     pipeline.expected_cycles(case, x)
-    df = pipeline.analyse(case, x, return_samples=True)
+    if case.get('via_rename') and case['center'] == 'trough':
+        # the documented manual route: shape features of -sig peak-centred, renamed to trough-centring, then the burst features
+        import warnings
+        from bycycle.features import compute_shape_features, compute_burst_features
+        from bycycle.utils import rename_extrema_df
+        with warnings.catch_warnings():
+            warnings.simplefilter('ignore')
+            shp = guarded(rename_extrema_df, 'trough', guarded(compute_shape_features, -x, case['fs'], tuple(case['f_range']), center_extrema='peak',
+                                                           find_extrema_kwargs=gen.copy_json(case.get('fek'))))
+            bf = guarded(compute_burst_features, shp, x.copy(), burst_method='cycles')
+        df = pd.concat((bf, shp), axis=1)
+        rec.label('via-rename')
+    else:
+        df = pipeline.analyse(case, x, return_samples=True)
     n = len(df)
     rec.label(*gen.case_labels(case))
     ext, F = ref.flank_sequence(x, df)
@@ -114,8 +127,18 @@ def build_table(case):
     return pd.DataFrame(d)
 
 
+def relabel(df, kind):
+    n = len(df)
+    if kind == 'offset':
+        df.index = pd.RangeIndex(4, 4 + n)
+    elif kind == 'repeated':                       # stacked tables (pd.concat without ignore_index)
+        h = (n + 1) // 2
+        df.index = pd.Index(list(range(h)) + list(range(n - h)))
+    return df
+
+
 def check_synth(case, rec):
-    df = build_table(case)
+    df = relabel(build_table(case), case.get('index', 'range'))
     n = len(df)
     direction = case['direction']
     keep = df.copy()
@@ -159,6 +182,7 @@ def check_mono(case, rec):
         df = df.iloc[keep_rows]          # a row subset (bursting cycles only, artefacts masked): rows are no longer contiguous in time
         if case.get('reset_index', True):
             df = df.reset_index(drop=True)
+    df = relabel(df, case.get('index', 'range'))
     got = guarded(compute_monotonicity, df, x.copy())
     cmp_exact('monotonicity', got, ref.ref_monotonicity(x, df))
     got = np.asarray(got, dtype=float)
@@ -173,6 +197,7 @@ def check_mono(case, rec):
 def strat_pipeline(draw, tier):
     case = draw(gen.st_analysis_case(methods=('cycles',), tie_rich=draw(st.booleans())))
     case['return_samples'] = True
+    case['via_rename'] = draw(st.integers(0, 2)) == 0
     return case
 
 
@@ -189,7 +214,7 @@ def strat_synth(draw, tier):
     amp = draw(st.one_of(st.none(), st.lists(st.integers(0, 5).map(float), min_size=n, max_size=n)))
     return {'rise': rise, 'decay': decay, 'period': period, 'amp': amp, 'scale': draw(st.sampled_from([1.0, 0.5, 0.1, 3.0])),
             'center': draw(st.sampled_from(['peak', 'trough'])), 'direction': draw(st.sampled_from(['both', 'both', 'next', 'last'])),
-            'int_cols': draw(st.integers(0, 3)) == 0}
+            'int_cols': draw(st.integers(0, 3)) == 0, 'index': draw(st.sampled_from(['range', 'range', 'offset', 'repeated']))}
 
 
 @st.composite
@@ -199,7 +224,8 @@ def strat_mono(draw, tier):
     k = draw(st.integers(1, max(1, (n - 1) // 2)))
     idx = sorted(draw(st.sets(st.integers(0, n - 1), min_size=2 * k + 1, max_size=2 * k + 1)))
     return {'x': x, 'idx': idx, 'center': draw(st.sampled_from(['peak', 'trough'])),
-            'drop_rows': draw(st.one_of(st.just(0), st.just(0), st.integers(1, 2 ** 16 - 1))), 'reset_index': draw(st.booleans())}
+            'drop_rows': draw(st.one_of(st.just(0), st.just(0), st.integers(1, 2 ** 16 - 1))), 'reset_index': draw(st.booleans()),
+            'index': draw(st.sampled_from(['range', 'range', 'offset', 'repeated']))}
 
 
 PARTS = [
